@@ -10,6 +10,7 @@ import (
 	"net/http"
 	"net/url"
 	"os"
+	"slices"
 	"strings"
 	"syscall"
 
@@ -23,7 +24,7 @@ import (
 func init() {
 	register(&Prop{
 		ID: "C15", Level: "fault_enumeration",
-		Rule: "one case = a router with CustomRecoveryWithLogHandler(capturing handler, DefaultHandleRecovery) over all handler kinds, generated routes, request headers carrying unique secret tokens under credential-bearing names in canonical, lower-case and mixed capitalisation (drawn; some with two values or under two capitalisations at once; values of 2, 3 or 12+ bytes) next to ordinary headers, a drawn request-target form (origin-form, absolute-form, no host), and a generated Updates/View program; for that configuration ALL combinations are enumerated of panic value (string, error, wrapped error, nil, custom type, http.ErrAbortHandler bare and wrapped, net.OpError with broken pipe / connection reset / other errno, directly or one wrapping layer down) x response progress at the time of the panic (nothing, header only, partial body, after a failed write) x panic site (route handler, route-specific middleware, route handler reached through an ignored trailing slash, a second fox router without Recovery mounted in the route handler, no-route, no-method and options handlers), a panic after every prefix of the Updates/View program run inside a handler, and a panic raised by a middleware constructor while Router.Handle/Update build a route inside a handler (user code running under the writer lock). Oracle: ServeHTTP returns normally (ErrAbortHandler re-raised as the identical value); the simulated connection shows 500 iff nothing had been written and the value is not a broken-connection error, nothing at all for broken connections, an untouched partial response otherwise; exactly one diagnostic record naming route (or scope), parameters and request line and containing none of the secret values; afterwards the routes are unchanged, a follow-up request is served and a write issued under the scheduler completes (writer lock released, else deadlock). One run in four repeats the route-handler site through CustomRecovery's built-in log handler on a route whose wildcards are named like log attributes (latency, status, error, level, time, msg, ...), reading the record back from standard error. Panic values include typed nil pointers (error, Stringer, *net.OpError, *url.URL) and values whose Error/String method panics. Non-trivial: every run (all combinations are executed); distinct = hash of (configuration, header capitalisation, program).",
+		Rule: "one case = a router with CustomRecoveryWithLogHandler(capturing handler, DefaultHandleRecovery) over all handler kinds, generated routes, request headers carrying unique secret tokens under credential-bearing names in canonical, lower-case and mixed capitalisation (drawn; some with two values or under two capitalisations at once; values of 2, 3 or 12+ bytes) next to ordinary headers, a drawn request-target form (origin-form, absolute-form, no host), and a generated Updates/View program; for that configuration ALL combinations are enumerated of panic value (string, error, wrapped error, nil, custom type, http.ErrAbortHandler bare and wrapped, net.OpError with broken pipe / connection reset / other errno, directly or one wrapping layer down) x response progress at the time of the panic (nothing, header only, partial body, after a failed write) x panic site (route handler, route-specific middleware, route handler reached through an ignored trailing slash, a second fox router without Recovery mounted in the route handler, no-route, no-method and options handlers), a panic after every prefix of the Updates/View program run inside a handler, and a panic raised by a middleware constructor while Router.Handle/Update build a route inside a handler (user code running under the writer lock). Oracle: ServeHTTP returns normally (ErrAbortHandler re-raised as the identical value); the simulated connection shows 500 iff nothing had been written and the value is not a broken-connection error, nothing at all for broken connections, an untouched partial response otherwise; exactly one diagnostic record naming route (or scope), parameters and request line and containing none of the secret values; afterwards the routes are unchanged, a follow-up request is served and a write issued under the scheduler completes (writer lock released, else deadlock). One run in four repeats the route-handler site through CustomRecovery's built-in log handler on a route whose wildcards are named like log attributes (latency, status, error, level, time, msg, ...), reading the record back from standard error. Ordinary headers named like the beginning of a credential header (Proxy, Cook, X-CSRF) are added now and then. Panic values include typed nil pointers (error, Stringer, *net.OpError, *url.URL) and values whose Error/String method panics. Non-trivial: every run (all combinations are executed); distinct = hash of (configuration, header capitalisation, program).",
 		Run:  runC15, Quick: 4000, Thorough: 480000,
 		Real: []string{"Recovery middleware (recovery.go)", "Router.Updates/View abort paths", "recorder ResponseWriter", "ServeHTTP dispatch", "built-in log handler (internal/slogpretty) in one run of four: its output goes to file descriptor 2, pointed at a private scratch file for the duration of the call"},
 		Stub: []string{"slog sink: capturing handler (built-in handler: see real)", "net/http connection: simulated connection", "handlers and middleware that panic on script"},
@@ -217,6 +218,23 @@ func runC15(src sim.Source, o Opts) *Result {
 		}
 	}
 	ordinary = append(ordinary, hdr{"X-Request-Id", "ordinary-value-1", ""}, hdr{"accept", "ordinary-value-2", ""})
+	// ordinary headers whose NAME is the beginning of a credential header's name as the request carries it (Proxy next to
+	// Proxy-Authorization, Cook next to Cookie): they sit on the line just before it in the sorted request dump
+	for i := 0; i < len(secrets); i++ {
+		if src.Intn("prefixneighbour", 3) != 2 {
+			continue
+		}
+		k := secrets[i].Key
+		cut := strings.LastIndexByte(k, '-')
+		if cut <= 0 || src.Intn("prefixcut", 3) == 2 {
+			cut = 1 + src.Intn("prefixcutat", len(k)-1)
+		}
+		if slices.ContainsFunc(ordinary, func(h hdr) bool { return h.Key == k[:cut] }) {
+			continue // (each ordinary header carries one value)
+		}
+		ordinary = append(ordinary, hdr{k[:cut], fmt.Sprintf("ordinary-neighbour-%d", i), ""})
+		res.inc("ordinary_header_named_like_the_beginning_of_a_credential_header")
+	}
 	// the request-target form: origin-form, absolute-form (proxy style) or a request without any host - the dump of
 	// the request starts differently in each case (httputil.DumpRequest omits the Host line for the last two)
 	reqForm := sim.Pick(src, "reqform", []string{"origin", "origin", "absolute", "nohost"})
